@@ -1,7 +1,7 @@
 \* partition ring, watcher: 2 updates of any kind (state, tokens, add, remove, owners only, equal) from an empty and a
-\* full ring, unbounded map cache, 2 identifiers
+\* full ring, map cache and LRU of capacity 1, 2 identifiers
 CONSTANTS
-  Part = {1, 2, 3}
+  Part = {1, 2}
   Owners = {1}
   PIdent = {1, 2}
   PSizes = {1}
